@@ -147,7 +147,8 @@ def json_keys(repo: Repo, ci: ClassInfo) -> Optional[dict]:
             k = st.targets[0].slice
             if isinstance(k, ast.Constant) and isinstance(k.value, str):
                 env[st.targets[0].value.id].add(k.value)
-                opt.add(k.value)
+                if st not in fn.body:
+                    opt.add(k.value)  # stored under a condition / in a loop
             else:
                 env.pop(st.targets[0].value.id, None)  # computed key: that local is opaque
         elif isinstance(st, ast.Expr) and isinstance(st.value, ast.Call) and isinstance(st.value.func, ast.Attribute) \
